@@ -172,6 +172,26 @@ OUT_OF_DOMAIN = [
 ]
 
 
+def wrong_typed(r, sec: dict) -> dict:
+    """a section with one value of the wrong type (string for int, list for scalar, null, scalar for list/dict).
+    Such values are not rejected by the config classes (no ValueError): the foreign rule fails internally or ignores
+    them, which must not change any OTHER linter's findings (Orchestrator swallows per-rule failures)."""
+    sec = json.loads(json.dumps(sec)) or {"enabled": True}
+    key = r.choice(sorted(sec))
+    v = sec[key]
+    if isinstance(v, bool):
+        sec[key] = r.choice(["yes", [v], None, 7])
+    elif isinstance(v, int):
+        sec[key] = r.choice(["four", [v], None, {"value": v}, 2.5])
+    elif isinstance(v, list):
+        sec[key] = r.choice([7, "x", None, {"a": 1}])
+    elif isinstance(v, dict):
+        sec[key] = r.choice(["x", 3, None, [1, 2]])
+    else:
+        sec[key] = r.choice([5, [v], None])
+    return sec
+
+
 def make_configs(r):
     base = {}
     for pkg in VALID:
@@ -183,6 +203,8 @@ def make_configs(r):
     touched = r.sample(sorted(OTHER), r.choice([0, 1, 1, 2, 2, 3, 5]))
     for pkg in touched:
         pert[pkg] = r.choice(OTHER[pkg] + VALID.get(pkg, []))
+        if r.random() < 0.4:
+            pert[pkg] = wrong_typed(r, pert[pkg])
     return base, pert, sorted(touched)
 
 
@@ -235,6 +257,12 @@ def grid_groups(cmds_all):
             continue
         seen.append(head)
         add("py", "tool", "" if len(seen) % 3 else ".", head + _fixed_content("py"))
+    # a wrongly typed value in an EARLY rule's section must not silence rules registered later (unwrap-abuse is last)
+    for kind, ext, pert, cmds in (("rs", ".rs", {"nesting": {"max_nesting_depth": "four"}}, ["unwrap-abuse", "srp", "clone-abuse"]),
+                                  ("py", ".py", {"cqs": {"min_operations": [1]}, "dry": {"enabled": True, "min_duplicate_lines": None}}, ["stateless-class", "stringly-typed", "perf", "lbyl"]),
+                                  ("ts", ".ts", {"magic_numbers": {"allowed_numbers": 7}}, ["print-statements", "srp", "string-concat-loop"])):
+        out.append({"i": f"grid:{len(out)}", "kind": kind, "stem": "typed", "ext": ext, "data_hex": _fixed_content(kind).encode().hex(), "base": {},
+                    "pert": pert, "touched": sorted(pert), "fixed_cmds": cmds, "subprocess_cmds": []})
     own = {".py": "py", ".js": "ts", ".ts": "ts", ".tsx": "ts", ".jsx": "ts", ".rs": "rs", ".java": "py", ".go": "rs"}
     other = {"py": "rs", "ts": "py", "rs": "ts"}
     for ext in EXT_MAPPED:
@@ -628,7 +656,7 @@ def run(tier: str, seed: int, replay: str | None = None) -> int:
                 "trigger every linter of that language) is written under a file name of every mapped extension in lower/upper/mixed case, "
                 "of unmapped extensions, without extension, with and without a (python / other) shebang line, empty or undecodable; every "
                 "linter command (22 incl. perf --rule variants) runs on it through click under a configuration whose sections of OTHER "
-                "linters were perturbed (arbitrary VALID settings: other thresholds, disabling, per-language overrides, other path rules); expected output = findings of the command's "
+                "linters were perturbed (arbitrary settings the config classes do not reject: other thresholds, disabling, per-language overrides, other path rules, and wrongly typed values - string for int, list for scalar, null - which make the foreign rule fail internally); expected output = findings of the command's "
                 "own rules in an unfiltered reference run on canonically named copies (.py/.ts/.js/.rs) under the unperturbed configuration. "
                 "A case (project, config, command) is non-trivial when the reference runs contain at least one finding of a rule the "
                 "command does not own (something could leak); distinct = distinct (content, file name, configuration, command)")
@@ -693,7 +721,8 @@ def run(tier: str, seed: int, replay: str | None = None) -> int:
             shards, index = [], []
             per = 6
             for s in range(0, len(groups), per):
-                chunk = [j for j in range(s, min(len(groups), s + per)) if groups[j]["cmds"] and not groups[j].get("ood")]
+                chunk = [j for j in range(s, min(len(groups), s + per)) if groups[j]["cmds"] and not groups[j].get("ood")
+                         and not any(rej for _k, rej in results[j]["sections"])]
                 if chunk:
                     shards.append("\n".join(f"Eval vm_compute in ({coq_group(groups[j], results[j], atabs[j], tagsets[j], groups[j]['cmds'])})." for j in chunk))
                     index.append(("g", chunk))
@@ -728,11 +757,13 @@ def run(tier: str, seed: int, replay: str | None = None) -> int:
     # ---- observable level
     cands_all = None
     for g, res, ver, atab in zip(groups, results, verdicts, atabs):
+        if not g.get("ood") and any(rej for _k, rej in res["sections"]):
+            g["ood"] = True   # a wrongly typed value happened to be rejected (ValueError): outside C15's domain
         if g.get("ood"):
             for cmd in g["cmds"]:
                 o = res["cmds"][cmd]
                 chk.dist("out-of-domain(C05, not part of the verdict):" + next(iter(o)))
-                if "aborted" not in o:
+                if "aborted" not in o and str(g["i"]).startswith("out-of-domain"):
                     chk.notes.append(f"out-of-domain stream: `{cmd}` under {g['pert']} did not end with 'Error during linting' / exit 2 ({str(o)[:120]}) - C05's business, not C15's")
             continue
         names = twin_names(g)
@@ -843,6 +874,8 @@ def _overlay_known(chk: Check):
             chk.known[kind] = {k: v for k, v in chk.known[kind].items() if k in listed}
         for f in json.loads(p.read_text()).get("findings", []):
             if f.get("property") == PROP and f.get("status") == "known":
-                chk.known["known"].setdefault(f["key"], f)
+                chk.known["known"][f["key"]] = f
+                chk.known["fixed"].pop(f["key"], None)
             elif f.get("property") == PROP and str(f.get("status", "")).startswith("fixed"):
-                chk.known["fixed"].setdefault(f["key"], f)
+                chk.known["fixed"][f["key"]] = f
+                chk.known["known"].pop(f["key"], None)
